@@ -14,6 +14,14 @@ static void setup(ECPIntegrator& I, const Case& c, double stretch = 1.0) {
     ams.push_back(s.l); lens.push_back((int)s.e.size());
     exps.insert(exps.end(), s.e.begin(), s.e.end()); coefs.insert(coefs.end(), s.d.begin(), s.d.end());
   }
+  // split_basis k (0 < k < nshells): the Gaussian basis is handed over in two calls (the first k shells, then the rest), as a program
+  // that assembles the basis atom by atom does
+  long k = c.geti("split_basis", 0);
+  if (k > 0 && k < (long)c.shells.size()) {
+    int np = 0; for (long i = 0; i < k; i++) np += lens[i];
+    I.set_gaussian_basis((int)k, coords.data(), exps.data(), coefs.data(), ams.data(), lens.data());
+    I.set_gaussian_basis((int)c.shells.size() - (int)k, coords.data() + 3 * k, exps.data() + np, coefs.data() + np, ams.data() + k, lens.data() + k);
+  } else
   I.set_gaussian_basis((int)c.shells.size(), coords.data(), exps.data(), coefs.data(), ams.data(), lens.data());
   std::vector<double> ec, ee, ed; std::vector<int> el, en, elen;
   for (auto& u : c.ecps) {
